@@ -51,7 +51,7 @@ fn feature_model() -> Result<Vec<u8>, String> {
 
 pub fn base_packages() -> Result<Vec<(String, Vec<u8>)>, String> {
     let mut v = vec![("feature-export".to_string(), feature_model()?)];
-    for f in ["openpyxl_example.xlsx", "libreoffice_888_example.xlsx", "DynamicArrays.xlsx", "link_test.xlsx", "conditional_formatting/cf_tests.xlsx", "calc_tests/defined_names.xlsx"] {
+    for f in ["openpyxl_example.xlsx", "libreoffice_888_example.xlsx", "DynamicArrays.xlsx", "link_test.xlsx", "conditional_formatting/cf_tests.xlsx", "calc_tests/defined_names.xlsx", "calc_tests/simple_cases.xlsx", "custom_theme_colors.xlsx"] {
         if let Ok(b) = std::fs::read(format!("/repo/xlsx/tests/{f}")) {
             v.push((f.to_string(), b));
         }
@@ -149,7 +149,24 @@ pub fn vocab(out_dir: &str) -> Result<Value, String> {
     for (pi, (name, bytes)) in pk.iter().enumerate() {
         for (part, b) in unzip(bytes)? {
             let (e, a) = if part.ends_with(".xml") || part.ends_with(".rels") { scan_xml(&String::from_utf8_lossy(&b)) } else { (vec![], vec![]) };
-            writeln!(out, "{}", json!({"pkg": pi + 1, "pkgname": name, "part": part, "elems": e.len(), "attrs": a.len(), "size": b.len()})).ok();
+            // index-like attributes: small non-negative integers (sheet ids, style / font / fill indices, counts ...)
+            let text = String::from_utf8_lossy(&b).to_string();
+            let mut seen_names: std::collections::BTreeMap<String, usize> = Default::default();
+            let mut ints: Vec<usize> = vec![];
+            for (j, at) in a.iter().enumerate() {
+                if let Ok(v) = text[at.2..at.3].parse::<u32>() {
+                    if v < 64 {
+                        // at most 3 occurrences of the same attribute name per part (cells repeat r= / s= thousands of times)
+                        let name = text[at.0..at.2].split('=').next().unwrap_or("").trim().to_string();
+                        let c = seen_names.entry(name).or_insert(0);
+                        *c += 1;
+                        if *c <= 3 {
+                            ints.push(j + 1);
+                        }
+                    }
+                }
+            }
+            writeln!(out, "{}", json!({"pkg": pi + 1, "pkgname": name, "part": part, "elems": e.len(), "attrs": a.len(), "size": b.len(), "ints": ints})).ok();
             n += 1;
         }
     }
@@ -157,7 +174,7 @@ pub fn vocab(out_dir: &str) -> Result<Value, String> {
     Ok(json!({"packages": pk.len(), "parts": n}))
 }
 
-const GARBLE: [&str; 6] = ["", "-1", "99999999999999999999", "abc", "1.5", "A0:ZZZZ99999999"];
+const GARBLE: [&str; 8] = ["", "-1", "99999999999999999999", "abc", "1.5", "A0:ZZZZ99999999", "a\u{e9}\u{e9}\u{e9}b", "x"];
 
 fn apply_fault(parts: &mut Vec<(String, Vec<u8>)>, f: &Value) {
     let kind = f["k"].as_str().unwrap_or("");
@@ -174,7 +191,7 @@ fn apply_fault(parts: &mut Vec<(String, Vec<u8>)>, f: &Value) {
                 let k = bytes.len() * arg / 16;
                 bytes.truncate(k);
             }
-            "DropElem" | "DupElem" | "EmptyElem" | "DropAttr" | "GarbleAttr" => {
+            "DropElem" | "DupElem" | "EmptyElem" | "DropAttr" | "GarbleAttr" | "BumpAttr" => {
                 let text = String::from_utf8_lossy(bytes).to_string();
                 let (elems, attrs) = scan_xml(&text);
                 let mut t = text.clone();
@@ -200,6 +217,14 @@ fn apply_fault(parts: &mut Vec<(String, Vec<u8>)>, f: &Value) {
                     "DropAttr" => {
                         if let Some(a) = attrs.get(idx.wrapping_sub(1)) {
                             t.replace_range(a.0..a.1, "");
+                        }
+                    }
+                    "BumpAttr" => {
+                        // an index moved past (or towards) its bound: value + x
+                        if let Some(a) = attrs.get(idx.wrapping_sub(1)) {
+                            if let Ok(v) = text[a.2..a.3].parse::<u64>() {
+                                t.replace_range(a.2..a.3, &format!("{}", v + arg as u64));
+                            }
                         }
                     }
                     _ => {
